@@ -29,6 +29,9 @@
 (*                   tuples/structs/sequences unambiguous - the inductive  *)
 (*                   step behind Discriminating for types not enumerated)  *)
 (*                                                                         *)
+(*   LenCode         the length encoding is a prefix code (what PrefixFree  *)
+(*                   and Discriminating need from write_length_prefix)     *)
+(*                                                                         *)
 (* With LengthPrefix = FALSE TLC finds ("ab","b") vs ("a","bb"),           *)
 (* with DiscPrefix = FALSE   None vs Some(0)-like pairs,                   *)
 (* with Commutative = FALSE  {0,1} iterated as 0,1 vs 1,0 (HistoryFree).   *)
@@ -111,4 +114,7 @@ S2 == Tok(T, r2, FALSE)
 HistoryFree == (A1 = A2) => (S1 = S2)
 Discriminating == (A1 # A2) => (S1 # S2)
 PrefixFree == IsPrefix(S1, S2) => (S1 = S2)
+(* the length encoder of the framing is a prefix code (requirement stated  *)
+(* in StableHashFraming.tla, examined on its own in StableHashLenCode.tla) *)
+LenCode == LenCodeIsPrefixCode
 =============================================================================
